@@ -40,6 +40,16 @@ TRUSTED_BASE = [
 ]
 
 
+def theorems(*pids):
+    reg = json.load(open(os.path.join(VERIF, 'harness', 'theorems.json')))
+    out = []
+    for pid in pids:
+        for t in reg[pid]:
+            if t not in out:
+                out.append(t)
+    return out
+
+
 class InfraError(Exception):
     """a failure of the verification machinery itself (exit 2, never a VIOLATION)"""
 
@@ -114,9 +124,10 @@ def lean_source_audit(modules):
     return hits
 
 
-def lean_axioms(module, theorems):
+def lean_axioms(modules, theorems):
     """`#print axioms` for each registered theorem; returns {thm: [axioms]}"""
-    src = 'import %s\n' % module + ''.join('#print axioms %s\n' % t for t in theorems)
+    src = ''.join('import %s\n' % m for m in modules) + ''.join('#print axioms %s\n' % t for t in theorems)
+    module = modules[0]
     tmp = os.path.join(LEAN_DIR, '.lake', 'audit_%s_%d.lean' % (module.replace('.', '_'), os.getpid()))
     with open(tmp, 'w') as f:
         f.write(src)
@@ -252,18 +263,19 @@ def main(prop, argv=None):
         axioms = {}
         build_s = 0.0
         if not a.no_lean:
-            build_s = lean_build([prop.MODULE, 'driver'])
-            hits = lean_source_audit([prop.MODULE])
+            mods = list(getattr(prop, 'MODULES', [prop.MODULE]))
+            build_s = lean_build(mods + ['driver'])
+            hits = lean_source_audit(mods)
             if hits:
                 raise InfraError('forbidden constructs in Lean sources:\n' + '\n'.join(hits))
-            axioms = lean_axioms(prop.MODULE, prop.THEOREMS)
+            axioms = lean_axioms(mods, prop.THEOREMS)
             bad = {t: ax for t, ax in axioms.items() if not set(ax) <= ALLOWED_AXIOMS}
             if bad:
                 raise InfraError('theorems with unexpected axioms: %s' % bad)
             discharged = len(axioms)
             if tier == 'thorough' and getattr(prop, 'LEANCHECKER', True):
                 with LeanLock():
-                    r = _run(['lake', 'env', 'leanchecker', prop.MODULE], cwd=LEAN_DIR, timeout=3000)
+                    r = _run(['lake', 'env', 'leanchecker'] + mods, cwd=LEAN_DIR, timeout=3000)
                 if r.returncode != 0:
                     raise InfraError('leanchecker rejected %s:\n%s' % (prop.MODULE, (r.stdout + r.stderr)[-3000:]))
                 ctx.extra['leanchecker'] = 'ok'
